@@ -1094,6 +1094,37 @@ example : (initTrust (10 : ℝ) (1/2)).damping * (initTrust (10 : ℝ) (1/2)).ra
 example : lossOf (KSpec.single (fun x : ℝ => 2 * x)) [[[1, 2]], [[3]]] = lossOf (KSpec.list [some (fun x : ℝ => 2 * x)]) [[[1, 2]], [[3]]] :=
   lossOf_single_eq_list1 _ _
 
+/-! ## pass 4: exact ties -/
+
+/-- the clamp exactly on its bounds returns the bound -/
+theorem clampMM_at_bounds (h : Hyper ℝ) (hmm : h.smin ≤ h.smax) :
+    clampMM h h.smin = h.smin ∧ clampMM h h.smax = h.smax :=
+  ⟨clampMM_id h _ le_rfl hmm, clampMM_id h _ hmm le_rfl⟩
+
+/-- Adaptive landing exactly on `max` (`λ·up = max`) stays there; landing exactly on `min` (`λ·down = min`) stays there -/
+theorem adaptive_lands_on_bounds (h : Hyper ℝ) (s : SState ℝ) (hmm : h.smin ≤ h.smax) :
+    (s.damping * h.up = h.smax → (updAdaptive h s Verdict.bad).damping = h.smax) ∧
+    (s.damping * s.down = h.smin → (updAdaptive h s Verdict.very).damping = h.smin) := by
+  constructor
+  · intro hh; simp only [updAdaptive]; rw [hh]; exact (clampMM_at_bounds h hmm).2
+  · intro hh; simp only [updAdaptive]; rw [hh]; exact (clampMM_at_bounds h hmm).1
+
+/-- **The last allowed trial is kept whatever its loss**: after exactly `reject` rejected trials the `(reject+1)`-th trial
+ends the call — accepted if it is not worse, and accepted *although* it is worse (rejections exhausted) — with
+`reject_count = reject` and `reject+1` solves in both cases. -/
+theorem last_allowed_trial (hinv : ∀ p d, pr.retr (pr.retr p d) (pr.neg d) = p)
+    (p0 : P) (s0 : S) (cached : Option ℝ) (hc : cached = none ∨ cached = some (pr.lossAt p0)) (ds : Nat → D)
+    (hsolve : ∀ i, i ≤ reject → e.solve i p0 = some (ds i))
+    (hworse : ∀ i, i < reject → pr.lossAt p0 < pr.lossAt (pr.retr p0 (ds i))) :
+    (lmStep pr reject e cached p0 s0).p = pr.retr p0 (ds reject) ∧
+      (lmStep pr reject e cached p0 s0).loss = pr.lossAt (pr.retr p0 (ds reject)) ∧
+      (lmStep pr reject e cached p0 s0).rc = reject ∧ (lmStep pr reject e cached p0 s0).solves = reject + 1 := by
+  rw [lm_accept_spec pr reject e hinv p0 s0 cached hc ds reject hsolve hworse le_rfl (Or.inr rfl)]
+  exact ⟨rfl, rfl, rfl, rfl⟩
+
+example : clampMM (⟨1/2, 1/1000, 2, 1/2, 1/2, 1/4, 4⟩ : Hyper ℝ) (1/4) = 1/4 :=
+  (clampMM_at_bounds _ (by norm_num)).1
+
 /-! ## non-vacuity: concrete runs of the model (`P = D = ℚ`-like reals, loss `x²`) -/
 
 section examples
